@@ -1,8 +1,11 @@
-(* C05 - facts about the constants regenerated from the working tree's params
-   package (coq/gen/C05Params.v, written by `c05 params` on every run). *)
+(* C05 - facts about the constants regenerated from the working tree
+   (coq/gen/C05Params.v, written by `c05 params` on every run). *)
 From Coq Require Import ZArith NArith List Bool.
 From VF.gen Require Export C05Params.
+From VF.C05 Require Import Model.
 Import ListNotations.
+
+Definition listN_eqb (a b : list N) : bool := list_eqb N.eqb a b.
 
 Definition params_ok : bool :=
   Z.ltb 0 real_stake_unit && N.ltb 0 real_rate_base && forallb (fun f => N.leb f 100) real_fractions.
@@ -20,3 +23,10 @@ Proof.
   split; [assumption|split; [assumption|]].
   intros f Hin. rewrite forallb_forall in H3. apply N.leb_le. auto.
 Qed.
+
+(* the vote kinds are numbered alike by the consensus package (voters, detector)
+   and by the staking package (evidence check), and as the model numbers them *)
+Lemma real_kinds_agree :
+  real_kinds_ucon = real_kinds_staking /\
+  real_kinds_staking = [2%N; 3%N; 4%N; vote_certificate].
+Proof. split; vm_compute; reflexivity. Qed.
